@@ -125,8 +125,28 @@ def gen_readonce(n, seed):
     return out
 
 
+def gen_contradict(n, seed):
+    """programs of gen() plus two evidence statements of opposite sign on the same choice atom (a fact or an AD head), in either
+    order: no world satisfies the evidence, MPE must report the model as unsatisfiable (seeded defect c20-6)"""
+    import copy
+    rng = random.Random(seed * 4001 + 99)
+    out = []
+    for p in gen(n, seed + 5000):
+        p = copy.deepcopy(p)
+        x = rng.choice([f["atom"] for f in p["facts"]] + [h["atom"] for ad in p["ads"] for h in ad["heads"]])
+        p["evidence"] = [e for e in p["evidence"] if e["atom"] != x]
+        s = rng.randint(0, 1)
+        pair = [{"atom": x, "s": s}, {"atom": x, "s": 1 - s}]
+        if rng.random() < 0.5 or not p["evidence"]:
+            p["evidence"] = p["evidence"] + pair
+        else:
+            p["evidence"] = [pair[0]] + p["evidence"] + [pair[1]]
+        out.append(p)
+    return out
+
+
 def run(ctx):
-    P = gen(ctx.pick(160, 2000), ctx.seed) + gen_readonce(ctx.pick(120, 1500), ctx.seed)
+    P = gen(ctx.pick(160, 2000), ctx.seed) + gen_readonce(ctx.pick(120, 1500), ctx.seed) + gen_contradict(ctx.pick(40, 500), ctx.seed)
     jobs, idx = [], []
     for i, p in enumerate(P):
         t = progs.render(p)
